@@ -15,6 +15,7 @@
 (***************************************************************************)
 EXTENDS Naturals, Sequences, FiniteSets, TLC, Json
 CONSTANTS Dims,        \* function: dimension -> set of non-default values
+          DimSeq,      \* the dimensions in a fixed order
           MaxHazards
 
 VARIABLES prog,   \* set of [dim, val]: the dimensions that deviate from the default
@@ -22,25 +23,38 @@ VARIABLES prog,   \* set of [dim, val]: the dimensions that deviate from the def
           results \* sequence of outcomes, each "Ok" or "Err"
 vars == <<prog, pc, results>>
 
-Choices == {[dim |-> d, val |-> v] : d \in DOMAIN Dims, v \in UNION {Dims[x] : x \in DOMAIN Dims}}
+\* programs are built one hazard per step, dimensions in the fixed order DimSeq, so that every
+\* set of at most MaxHazards hazards is reached exactly once (no huge set is ever constructed)
+Idx(d) == CHOOSE k \in 1..Len(DimSeq) : DimSeq[k] = d
+MaxIdx == IF prog = {} THEN 0 ELSE CHOOSE k \in {Idx(h.dim) : h \in prog} : \A j \in {Idx(h.dim) : h \in prog} : j <= k
 Valid(S) == /\ \A h \in S : h.val \in Dims[h.dim]
             /\ \A a, b \in S : a.dim = b.dim => a = b
-RECURSIVE Subsets(_, _)
-\* all valid hazard sets of size <= n, built incrementally (SUBSET Choices is far too large)
-Subsets(n, acc) == IF n = 0 THEN acc
-                   ELSE Subsets(n - 1, acc \cup {S \cup {h} : S \in acc, h \in {x \in Choices : x.val \in Dims[x.dim]}})
-Programs == {S \in Subsets(MaxHazards, {{}}) : Valid(S)}
 
 Init == prog = {} /\ pc = "pick" /\ results = <<>>
-Pick == pc = "pick" /\ prog' \in Programs /\ pc' = "load" /\ UNCHANGED results
+AddHazard == /\ pc = "pick" /\ Cardinality(prog) < MaxHazards
+             /\ \E k \in (MaxIdx + 1)..Len(DimSeq) : \E v \in Dims[DimSeq[k]] :
+                  prog' = prog \cup {[dim |-> DimSeq[k], val |-> v]}
+             /\ UNCHANGED <<pc, results>>
+Pick == pc = "pick" /\ pc' = "load" /\ UNCHANGED <<prog, results>>
 Step(from, to) == /\ pc = from /\ pc' = to
                   /\ \E r \in {"Ok", "Err"} : results' = Append(results, r)
                   /\ UNCHANGED prog
-Next == Pick \/ Step("load", "process") \/ Step("process", "query") \/ Step("query", "done")
+Next == AddHazard \/ Pick \/ Step("load", "process") \/ Step("process", "query") \/ Step("query", "done")
 Spec == Init /\ [][Next]_vars /\ WF_vars(Next)
 
-TypeOK == \A k \in 1..Len(results) : results[k] \in {"Ok", "Err"}
+TypeOK == Valid(prog) /\ \A k \in 1..Len(results) : results[k] \in {"Ok", "Err"}
 Termination == <>(pc = "done")
+\* C16, third clause: for a program with exactly one hazard of the listed kinds, the keyword of the
+\* statement every positioned resolve-time error must name (DESIGN.md D.3); "" = only the general
+\* rule applies (a position in an error is the start of some statement of that file)
+BlameOf(h) ==
+  CASE h.dim \in {"td1", "td2", "td3"} /\ h.val \in {"nosuch", "foreign-absent", "foreign-unknown-prefix", "self", "t1", "t2", "t3"} -> "type"
+    [] h.dim = "gr1" /\ h.val \in {"nosuch", "foreign-absent"} -> "uses"
+    [] h.dim = "range" /\ h.val \in {"bad-syntax", "descending", "outside-parent"} -> "range"
+    [] h.dim = "enumx" /\ h.val \in {"duplicate-name", "huge-value", "value-not-a-number"} -> "enum"
+    [] h.dim = "union" /\ h.val = "of-cyclic-typedef" -> ""
+    [] OTHER -> ""
+Blame == IF Cardinality(prog) = 1 THEN BlameOf(CHOOSE h \in prog : TRUE) ELSE ""
 \* one case per program
-Export == pc # "load" \/ PrintT(<<"CASE", ToJson([hazards |-> prog])>>)
+Export == pc # "load" \/ PrintT(<<"CASE", ToJson([hazards |-> prog, blame |-> Blame])>>)
 =============================================================================
